@@ -581,3 +581,49 @@ Section Traj.
       destruct (_ || _); apply rebuild_data.
   Qed.
 End Traj.
+
+(* ---------- membership answers of Trajectories do not depend on the poses stored *)
+Section RelabelTraj.
+  Context {D P Q : Type} `{EqDec D}.
+  Variable f : P -> Q.
+  Variable interp : Z -> Z -> P -> Z -> P -> P.
+  Variable interp' : Z -> Z -> Q -> Z -> Q -> Q.
+  Variables nd nd' : Z -> Z.
+  Variables maxsize maxsize' : Z.
+
+  Definition top_map (o : top D P) : top D Q :=
+    match o with
+    | M mo => M (mop_map f mo)
+    | Sorted => Sorted
+    | TsLen => TsLen
+    | Interp t d mi => Interp t d mi
+    end.
+
+  Lemma s_tstep_vmap (a : amap D P) o :
+    snd (s_tstep interp' nd' (vmap f a) (top_map o)) = vmap f (snd (s_tstep interp nd a o)).
+  Proof. destruct o; cbn [top_map s_tstep snd]; try reflexivity. apply s_step_vmap. Qed.
+
+  Lemma s_trun_vmap ops : forall (a : amap D P),
+    snd (s_trun interp' nd' (vmap f a) (map top_map ops)) = vmap f (snd (s_trun interp nd a ops)).
+  Proof.
+    induction ops as [|o ops IH]; intros a; cbn [map s_trun]; [reflexivity|].
+    pose proof (s_tstep_vmap a o) as E.
+    destruct (s_tstep interp' nd' (vmap f a) (top_map o)) as [r1 a1], (s_tstep interp nd a o) as [r2 a2].
+    cbn [snd] in E. subst a1. specialize (IH a2).
+    destruct (s_trun interp' nd' (vmap f a2) (map top_map ops)) as [rs1 b1], (s_trun interp nd a2 ops) as [rs2 b2].
+    cbn [snd] in *. exact IH.
+  Qed.
+
+  Theorem traj_membership_ignores_payload (ops : list (top D P)) t d :
+    has_pair (data (snd (t_run interp' nd' (init maxsize') (map top_map ops)))) t d =
+    has_pair (data (snd (t_run interp nd (init maxsize) ops))) t d /\
+    has_ts (data (snd (t_run interp' nd' (init maxsize') (map top_map ops)))) t =
+    has_ts (data (snd (t_run interp nd (init maxsize) ops))) t.
+  Proof.
+    pose proof (reachable_TRel interp nd maxsize ops) as [R1 _].
+    pose proof (reachable_TRel interp' nd' maxsize' (map top_map ops)) as [R2 _].
+    change (@nil (Z * D * Q)) with (vmap f (@nil (Z * D * P))) in R2. rewrite (s_trun_vmap ops) in R2. split.
+    - rewrite (has_pair_spec _ _ t d R1), (has_pair_spec _ _ t d R2). apply mem_vmap.
+    - unfold has_ts. rewrite (has_ts_eq _ _ t R1), (has_ts_eq _ _ t R2), ts_of_vmap, is_nil_vmap. reflexivity.
+  Qed.
+End RelabelTraj.
